@@ -115,8 +115,29 @@ def two_sequence_run(arg):
     return {"records": [rec], "detail": {"exc": sig}}
 
 
+def _shared_job(i, c, seed):
+    cfg = dict(c["cfg"], content=("random" if i % 2 else "checker"))
+    return {"tid": i + 1, "cfg": cfg, "outcome": c["outcome"], "seed": seed, "repack": [], "share": ("rows", "planes", "both")[i % 3]}
+
+
 def supplement(ctx, cfgs):
     allc = cc.LAST_ALL or cfgs
+    # (c) the same picture values held in objects that share storage: rows that are one list object
+    #     ([row] * h) and one plane object used for C1 and C2 -- a picture is its values, not its object graph
+    llc = [c for c in allc if c["cfg"]["mode"] == "hq_lossless" and c["outcome"]["dims"]["yh"] > 1]
+    jobs3 = [_shared_job(i, c, ctx.seed * 23 + i) for i, c in enumerate(llc[: ctx.pick(90, 900)])]
+    results3 = cc.run_jobs(jobs3)
+    records3, _ = cc.flatten(results3)
+    bad3, _, res3 = cc.judge(records3)
+    ctx.add_tlc(res3, "trace validation (CodecTrace) of %d supplementary runs (pictures whose rows / planes share objects)" % len(records3))
+    n_shared = sum(1 for r in records3 if r["verdict"] == "accepted" and r["pics"])
+    for b in bad3:
+        if b["clause"].startswith("C04.") and b["alarm"]:
+            rec = records3[b["line"] - 1]
+            job = jobs3[rec["tid"] - 1]
+            ctx.violation("C04|Exact|shared-objects|" + job["share"], "C04.Exact on a picture whose %s share storage: cfg %s" % (job["share"], rec["cfg"]), cc.case_of(job))
+    if n_shared < 20:
+        raise RuntimeError("vacuous supplement: %d accepted runs on pictures with shared rows/planes" % n_shared)
     ld = [c for c in allc if c["cfg"]["mode"] == "ld_lossy" and c["cfg"]["d"] + c["cfg"]["dho"] <= 2]
     jobs = [_ld_q0_job(i, c, ctx.seed * 13 + i) for i, c in enumerate(ld[: ctx.pick(150, 1500)])]
     results = cc.run_jobs(jobs)
@@ -150,7 +171,7 @@ def supplement(ctx, cfgs):
                 ctx.violation("C04|Exact|two-sequences|", "C04.Exact on a two-sequence stream: cfgs %s / %s" % (a[1]["cfg"], a[2]["cfg"]), {"two": [a[1], a[2], a[3]]})
     if n_ld_q0 < 20 or n_two < 20:
         raise RuntimeError("vacuous supplement: %d low-delay all-qindex-0 runs, %d accepted two-sequence streams" % (n_ld_q0, n_two))
-    return {"low_delay_all_qindex0_runs": n_ld_q0, "two_sequence_streams_accepted": n_two}
+    return {"low_delay_all_qindex0_runs": n_ld_q0, "two_sequence_streams_accepted": n_two, "shared_object_pictures_accepted": n_shared}
 
 
 def replay(case):
